@@ -127,6 +127,9 @@ func (c *Chunk) grow(n int) (int, error) {
 		//	we instead let capacity get twice as large so we
 		//	don't spend all our time copying.
 		copy(c.buf, c.buf[c.rpos:])
+		if c.Limit > 0 && x+n > c.Limit {
+			n = c.Limit - x
+		}
 	case c.Limit > 0 && (m > c.Limit+n || x+n > c.Limit):
 		return 0, ErrLimit
 	case m > max-m-n:
